@@ -28,7 +28,7 @@ FLOATS = [("0.5", 5, 10), (".5", 5, 10), ("0.50", 50, 100), ("5e-1", 1, 2), ("0.
           ("2.0", 20, 10), ("0.333", 333, 1000), ("0.2", 2, 10), ("0.125", 125, 1000), ("0.6", 6, 10), ("0.4", 4, 10)]
 INTS = [0, 1, 2, 5, 10, 20, 50, 100, 250, 1000, 5000]
 QUANTS = [("50.0", 500, 10), ("99.0", 990, 10), ("99.9", 999, 10), ("100.0", 1000, 10), ("0.0", 0, 10), ("90.0", 900, 10),
-          ("95.", 95, 1), ("75.5", 755, 10)]
+          ("95.", 95, 1), ("75.5", 755, 10), ("150.0", 1500, 10)]
 RANGES = [(500, 600), (0, 600), (200, 300), (400, 500), (502, 505), (100, 1000), (0, 0), (300, 200), (504, 505), (200, 201), (500, 504)]
 BAD = ["!(NetworkErrorRatio()~>~0.5)", "Unknown()~>~0.5", "NetworkErrorRatio()", "0.5~<~NetworkErrorRatio()",
        "NetworkErrorRatio()~+~0.1~>~0.5", "NetworkErrorRatio()~>~0.5~&&~NetworkErrorRatio()", "NetworkErrorRatio()~>~-0.5",
@@ -906,6 +906,50 @@ def latency_cycle(rng):
     return b.lines
 
 
+def hist_walk(rng):
+    """the latency histogram on its own: a condition over LatencyAtQuantileMS with the quantile literals 0, 50, 90, 99, 99.9, 100 and
+    > 100; latencies from sub-millisecond to beyond 2^32 us (about 71.6 min: dropped by the histogram), many completions inside one
+    10 s histogram period, gaps of more than 10 s and more than 60 s between completions (one rotation per record however long the
+    gap), trips (histogram reset) in between"""
+    qs = [("0.0", 0, 10), ("50.0", 500, 10), ("90.0", 900, 10), ("99.0", 990, 10), ("99.9", 999, 10), ("100.0", 1000, 10),
+          ("100.5", 1005, 10), ("250.0", 2500, 10), ("1.0", 10, 10), ("33.3", 333, 10), ("50.", 50, 1)]
+    thr = [0, 1, 2, 5, 10, 50, 100, 250, 1000, 5000, 60000, 4000000, 4294967]
+    expr = None
+    for _ in range(rng.randint(1, 4)):
+        a = ("cmp", rng.choice(["gt", "gt", "ge", "ge", "lt", "le", "eq", "neq"]), ("lat", lit_f(rng.choice(qs))), lit_i(rng.choice(thr)))
+        expr = a if expr is None else (rng.choice(["and", "or"]), expr, a)
+    cp = rng.choice([0, MS, 100 * MS, S, 5 * S, 20 * S])
+    fb, rec = rng.choice([MS, S, 2 * S]), rng.choice([MS, S, 2 * S])
+    b = Builder(rng, fb, rec, cp, expr)
+    b.parks = 0
+    gaps = [0, 0, 1, 999, 1000, 500000, MS, 7 * MS, 123456789, S, 3 * S, 10 * S - 1, 10 * S, 10 * S + 1, 25 * S, 59 * S, 61 * S, 130 * S, 700 * S]
+    for _ in range(rng.randint(30, 90)):
+        k = rng.random()
+        if k < 0.30:
+            b.start()
+        elif k < 0.55:
+            b.adv(rng.choice(gaps))
+        elif k < 0.58:
+            b.adv(rng.choice([4294 * S, 4294967296000 - 1, 4294967296000, 4295 * S, 9000 * S]))     # around and beyond 2^32 us
+        elif k < 0.85:
+            if b.fl:
+                b.finish(rng.choice(b.fl), rng.choice([200, 200, 200, 404, 502]))
+        elif k < 0.92:
+            for _ in range(rng.randint(10, 40)):     # many completions inside one histogram period
+                i = b.start()
+                b.adv(rng.choice([0, 1, 999, 1000, 250000, MS, 3 * MS, 40 * MS, 150 * MS]))
+                b.finish(i, 200)
+        else:
+            b.adv(fb + rng.choice([0, 1, MS]))       # out of a tripped state, if any
+            b.probe("good", hold=0)
+            b.adv(rec + 1)
+            b.probe("good", hold=0)
+            b.lines.append(rng.choice(["state", "effects"]))
+    b.drain()
+    b.lines += ["state", "effects"]
+    return b.lines
+
+
 def park_retrip(rng):
     """requests that arrive while the breaker is recovering are held in its "is in error state" log call while requests
     admitted earlier fail and re-trip it; they are decided afterwards, inside the new fallback period"""
@@ -1016,6 +1060,8 @@ def raw_scenario(rng, focus):
         return latency_cycle(rng)
     if rng.random() < (0.15 if focus == "C18" else 0.03):
         return near_miss(rng)
+    if rng.random() < (0.12 if focus == "C18" else 0.04):
+        return hist_walk(rng)
     if rng.random() < (0.1 if focus == "C05" else 0.03):
         return park_retrip(rng)
     fb, rec, cp = rng.choice(DURS), rng.choice(DURS), rng.choice(CPS)
